@@ -36,6 +36,7 @@ from comb_spec_searcher.strategies.strategy import StrategyFactory, Verification
 
 
 LAZY_MIN = 0  # see PW.minimum_size_of_object; set per job by the rule-level checks
+COMPRESS = False  # classes implement to_bytes/from_bytes (stored compressed by ClassDB) and hash weakly; set per job by C04
 
 
 class W(str, CombinatorialObject):
@@ -117,7 +118,23 @@ class PW(CombinatorialClass):
         return type(o) is type(self) and self._key() == o._key()
 
     def __hash__(self):
+        if COMPRESS:  # a legal but weak hash: unequal classes collide
+            return len(self.prefix) % 3
         return hash(self._key())
+
+    def to_bytes(self):
+        if not COMPRESS:
+            raise NotImplementedError
+        import json
+
+        return json.dumps([type(self).__name__, self.to_jsonable()], sort_keys=True).encode()
+
+    @classmethod
+    def from_bytes(cls, b):
+        import json
+
+        name, d = json.loads(b.decode())
+        return (SW if name == "SW" else PW).from_dict(d)
 
     def __repr__(self):
         ps = ",".join(f"{n}={l}@{f}" for n, l, f in self.params)
@@ -266,8 +283,8 @@ class Peel(_ModeMixin, CartesianProductStrategy):
         return res
 
     def decomposition_function(self, c):
-        if isinstance(c, SW) or c.just_prefix or safe_front(c) <= 0:
-            return None
+        if isinstance(c, SW) or c.just_prefix or safe_front(c) <= 0 or c.is_empty():
+            return None  # (declares its children non-empty: does not apply to an empty class)
         return tuple(k for k, _ in self._kids(c))
 
     def extra_parameters(self, c, children=None):
@@ -296,7 +313,7 @@ class Reduce(DisjointUnionStrategy):
         super().__init__(ignore_parent=True, inferrable=True, possibly_empty=False, workable=True)
 
     def decomposition_function(self, c):
-        if isinstance(c, SW):
+        if isinstance(c, SW) or c.is_empty():
             return None
         red = [p for p in c.patterns if not any(q != p and q in p for q in c.patterns)]
         if len(red) == len(c.patterns):
@@ -335,7 +352,7 @@ class Swap(SymmetryStrategy):
         return str.maketrans(al[0] + al[1], al[1] + al[0])
 
     def decomposition_function(self, c):
-        if isinstance(c, SW) or len(c.alphabet) != 2:
+        if isinstance(c, SW) or len(c.alphabet) != 2 or c.is_empty():
             return None
         t = self._t(c)
         return (PW(c.prefix.translate(t), [p.translate(t) for p in c.patterns], c.alphabet, c.just_prefix,
